@@ -186,7 +186,7 @@ pub fn check(spec: &NetSpec) -> Option<String> {
         all_fresh.extend(names.into_iter().filter(|x| !spec.vars.contains(x)));
         fns.push(f);
     }
-    if tvars.len() >= 2 && all_fresh.len() <= 14 {
+    if tvars.len() >= 2 && all_fresh.len() <= 10 {
         let fresh: Vec<String> = all_fresh.into_iter().collect();
         let mut got: BTreeSet<Vec<Vec<bool>>> = BTreeSet::new();
         for code in 0..(1u32 << fresh.len()) {
